@@ -86,8 +86,12 @@ impl TextDocument {
     }
 
     fn validate_range(&self, range: Range) -> Result<(), DocumentError> {
-        let start = self.position_to_index(range.start);
-        let end = self.position_to_index(range.end);
+        let (Some(start), Some(end)) = (
+            self.try_position_to_index(range.start),
+            self.try_position_to_index(range.end),
+        ) else {
+            return Err(DocumentError::InvalidRange { range });
+        };
         if start > end || end > self.content.len() {
             return Err(DocumentError::InvalidRange { range });
         }
@@ -95,12 +99,44 @@ impl TextDocument {
     }
 
     fn position_to_index(&self, position: Position) -> usize {
-        let line_offset = self
+        self.try_position_to_index(position)
+            .unwrap_or(self.content.len())
+    }
+
+    /// Converts an LSP position, whose `character` is counted in UTF-16 code units,
+    /// into a byte index into `content`. A line past the end of the document maps to
+    /// the end of the document and a character past the end of the line is clamped to
+    /// the end of the line (before its line terminator), as the LSP specification
+    /// prescribes. Returns `None` if the position points into the middle of a
+    /// surrogate pair.
+    fn try_position_to_index(&self, position: Position) -> Option<usize> {
+        let line = position.line as usize;
+        let Some(&line_start) = self.line_offsets.get(line) else {
+            return Some(self.content.len());
+        };
+        let line_end = self
             .line_offsets
-            .get(position.line as usize)
+            .get(line + 1)
             .copied()
             .unwrap_or(self.content.len());
-        line_offset + position.character as usize
+        let line_text = &self.content[line_start..line_end];
+        let line_text = line_text.strip_suffix('\n').unwrap_or(line_text);
+        let line_text = line_text.strip_suffix('\r').unwrap_or(line_text);
+        let target = position.character as usize;
+        let mut utf16_units = 0;
+        for (index, c) in line_text.char_indices() {
+            if utf16_units == target {
+                return Some(line_start + index);
+            }
+            if utf16_units > target {
+                return None;
+            }
+            utf16_units += c.len_utf16();
+        }
+        if utf16_units > target {
+            return None;
+        }
+        Some(line_start + line_text.len())
     }
 
     fn calculate_line_offsets(text: &str) -> Vec<usize> {
